@@ -84,46 +84,29 @@ Theorem C20_unknown_rejected : forall e fs c path d k,
 Proof. exact init_unknown_rejected. Qed.
 Print Assumptions C20_unknown_rejected.
 
-(** A non-mapping file is rejected with a config error.
-    FULL STATEMENT (false of the code as it is):
+(** A non-mapping file is rejected with a config error — at full strength: EVERY payload
+    that is not a mapping, truthy or falsy ([[1]], [3], ['abc'], but also [[]], [0],
+    [false], ['']), in any consulted location (common / user / global file, the
+    [tool.pypyr] value, the local file) raises the not-a-mapping config error naming the
+    file, whatever the configuration so far, and [init] never returns a configuration.
+    ([VNone] = no file, or an empty yaml document, which has no top-level node at all.) *)
+Theorem C20_nonmapping_rejected :
+  (forall c path v, is_mapping v = false -> v <> VNone ->
+     handle_payload c path v = CErr (ENotMapping path)
+     /\ is_config_error (ENotMapping path) = true)
+  /\
+  (forall e fs c path v,
+     skip_requested e = false ->
+     In (path, v) (precedence e fs) -> is_mapping v = false -> v <> VNone ->
+     forall c', init e fs c <> COk c').
+Proof.
+  split; [intros; split; [apply handle_payload_nonmapping; assumption|reflexivity]
+         |exact init_nonmapping_rejected].
+Qed.
+Print Assumptions C20_nonmapping_rejected.
 
-      forall c path v, is_mapping v = false -> v <> VNone ->
-        handle_payload c path v = CErr (ENotMapping path)
-
-    ([VNone] = an empty yaml document, which has no top-level node at all.)  Refuted: a
-    local pypyr-config.yaml consisting of [[]] (likewise [0], [false], ['']) is consulted,
-    is neither a mapping nor empty, and [init] returns the untouched defaults. *)
 Definition env0 : env :=
   mkEnv None None None (Some "/SB/c1:/SB/c2") (Some "/SB/u") "/SB/home" None None None.
-
-Theorem C20_nonmapping_rejected_refuted :
-  exists e fs path v,
-    skip_requested e = false /\ In (path, v) (precedence e fs) /\
-    is_mapping v = false /\ v <> VNone /\
-    init e fs (defaults e) =
-      COk (with_paths (defaults e) (user_path e) (common_paths e)).
-Proof.
-  exists env0, (fs_of_list [("pypyr-config.yaml", VList [])]), "pypyr-config.yaml", (VList []).
-  split; [reflexivity|]. split; [left; reflexivity|]. split; [reflexivity|].
-  split; [discriminate|]. vm_compute. reflexivity.
-Qed.
-Print Assumptions C20_nonmapping_rejected_refuted.
-
-(** What does hold: every TRUTHY non-mapping payload is rejected with the config error
-    naming the file, and [init] never returns a configuration when one is consulted. *)
-Theorem C20_nonmapping_rejected_partial : forall c path v,
-  py_truth v = true -> is_mapping v = false ->
-  handle_payload c path v = CErr (ENotMapping path)
-  /\ is_config_error (ENotMapping path) = true.
-Proof. intros; split; [apply handle_payload_truthy_nonmapping; assumption|reflexivity]. Qed.
-Print Assumptions C20_nonmapping_rejected_partial.
-
-Theorem C20_nonmapping_rejected_init_partial : forall e fs c path v,
-  skip_requested e = false ->
-  In (path, v) (precedence e fs) -> py_truth v = true -> is_mapping v = false ->
-  forall c', init e fs c <> COk c'.
-Proof. exact init_truthy_nonmapping_rejected. Qed.
-Print Assumptions C20_nonmapping_rejected_init_partial.
 
 (** $PYPYR_CONFIG_GLOBAL, when set (non-empty), replaces the common and user files: the
     outcome depends on the file system only through the global file, ./pyproject.toml and
@@ -223,5 +206,19 @@ Example C20_rejections_nonvacuous :
      = CErr (ENotMapping "/SB/u/pypyr/config.yaml")
   /\ init env0 (fs_of_list [("pyproject.toml", y [("tool", y [("pypyr", VInt 3)])])]) (defaults env0)
      = CErr (ENotMapping "pyproject.toml")
-  /\ is_known (VStr "bogus") = false /\ py_truth (VList [VInt 1]) = true.
-Proof. vm_compute. repeat split. Qed.
+  (* the falsy ones: [], 0, false, '' *)
+  /\ init env0 (fs_of_list [("pypyr-config.yaml", VList [])]) (defaults env0)
+     = CErr (ENotMapping "pypyr-config.yaml")
+  /\ init env0 (fs_of_list [("/SB/u/pypyr/config.yaml", VInt 0)]) (defaults env0)
+     = CErr (ENotMapping "/SB/u/pypyr/config.yaml")
+  /\ init env0 (fs_of_list [("pyproject.toml", y [("tool", y [("pypyr", VBool false)])])]) (defaults env0)
+     = CErr (ENotMapping "pyproject.toml")
+  /\ init env_global (fs_of_list [("/SB/g.yaml", VStr "")]) (defaults env_global)
+     = CErr (ENotMapping "/SB/g.yaml")
+  /\ In ("pypyr-config.yaml", VList []) (precedence env0 (fs_of_list [("pypyr-config.yaml", VList [])]))
+  (* empty file and empty mapping: accepted, nothing merged, nothing listed as loaded *)
+  /\ init env0 (fs_of_list [("pypyr-config.yaml", VNone); ("/SB/u/pypyr/config.yaml", VDict [])])
+          (defaults env0)
+     = COk (with_paths (defaults env0) (user_path env0) (common_paths env0))
+  /\ is_known (VStr "bogus") = false /\ is_mapping (VList []) = false.
+Proof. vm_compute. repeat split. left; reflexivity. Qed.
